@@ -490,6 +490,9 @@ func init() {
 			"kmodel scope handling: cluster-scoped kinds ignore metadata.namespace (apiserver rest/meta.go), creating a namespaced kind without namespace is refused",
 			"'rejected by dry run' is scripted through the annotation verif/reject",
 		},
-		Subs: []*checks.Sub{{Name: "enumeration", Shards: func(string) int { return 8 }, Run: run, Replay: replay}},
+		Subs: []*checks.Sub{
+			{Name: "enumeration", Shards: func(string) int { return 8 }, Run: run, Replay: replay},
+			{Name: "object-template", Shards: func(string) int { return 4 }, Run: runTemplates, Replay: replayTemplates, Parallel: true},
+		},
 	})
 }
